@@ -175,14 +175,27 @@ class ChoiceStub:
         n = len(a)
         k = int(size)
         p = np.asarray(p, dtype=float)
-        # what numpy itself would insist on (its ValueError otherwise): p >= 0, sums to 1
-        if not (len(p) == n and np.all(p >= 0) and abs(float(np.sum(p)) - 1.0) < 1e-8 and list(a) == list(range(n))):
+        if list(a) != list(range(n)):
             self.contract_ok = False
+        # exactly numpy's own argument checks (numpy/random/mtrand.pyx: choice)
+        if p.ndim != 1 or p.shape[0] != n:
+            raise ValueError("'a' and 'p' must have same size")
+        if np.any(np.isnan(p)):
+            raise ValueError("probabilities contain NaN")
+        if np.any(p < 0):
+            raise ValueError("probabilities are not non-negative")
+        if abs(math.fsum(p) - 1.0) > math.sqrt(np.finfo(np.float64).eps):
+            raise ValueError("probabilities do not sum to 1")
+        if not replace and k > int(np.count_nonzero(p > 0)):
+            raise ValueError("Fewer non-zero entries in p than size")
         draws = [int(x) for x in self.policy(n, k, p, len(self.tape))]
         assert len(draws) == k
         self.calls.append((n, k, [fr(x) for x in p]))
         self.tape.extend(draws)
         return np.array(draws, dtype=np.int64)
+
+
+ORIG_CHOICE = np.random.choice
 
 
 class patched_choice:
@@ -199,10 +212,10 @@ class patched_choice:
 
 
 def seeded_policy(rng):
+    """answers come from the REAL numpy.random.choice on the global RandomState (seeded from rng), recorded by the stub"""
     def pol(n, k, p, pos):
-        s = float(np.sum(p))
-        q = p / s if s > 0 else np.full(n, 1.0 / n)
-        return rng.choice(n, size=k, p=q)
+        np.random.seed(int(rng.integers(0, 2**32 - 1)))
+        return ORIG_CHOICE(range(n), k, p=p)
     return pol
 
 
@@ -644,16 +657,33 @@ def enumerate_law(probs, N, limit=48, max_samples=3):
 # public entry point and real gate bases
 # --------------------------------------------------------------------------------------
 def make_basis(v, scale, signs):
+    """QPDBasis with coefficients +-v*scale; the property's probabilities are |c| / sum|c| = v (exact: scale is a
+    power of two).  Whether QPDBasis.probabilities agrees is left to the comparison and to judge."""
     coeffs = [float(x * scale) * s for x, s in zip(v, signs)]
-    b = QPDBasis([([],)] * len(v), coeffs)
-    assert [Fraction(float(p)) for p in b.probabilities] == list(v), "QPDBasis.probabilities not exact"
-    return b
+    return QPDBasis([([],)] * len(v), coeffs)
 
 
-def run_public(bases, N, policy):
+NUM_FORMS = ["float", "int", "np.float64", "np.int64", "default"]
+
+
+def num_arg(N, form):
+    f = num_float(N)
+    if form == "int":
+        return int(f)
+    if form == "np.float64":
+        return np.float64(f)
+    if form == "np.int64":
+        return np.int64(int(f))
+    return f
+
+
+def run_public(bases, N, policy, form="float"):
     stub = ChoiceStub(policy)
     with patched_choice(stub):
-        r = call_canon(generate_qpd_weights, bases, num_float(N))
+        if form == "default":
+            r = call_canon(generate_qpd_weights, bases)
+        else:
+            r = call_canon(generate_qpd_weights, bases, num_arg(N, form))
     return r, stub
 
 
@@ -668,8 +698,18 @@ def gen_public(rng, tier, w, n):
             continue
         scales = [int(rng.choice([1, 2, 4])) for _ in probs]
         signs = [[int(rng.choice([-1, 1])) for _ in v] for v in probs]
-        bases = [make_basis(v, s, sg) for v, s, sg in zip(probs, scales, signs)]
-        r, stub = run_public(bases, N, seeded_policy(rng))
+        form = NUM_FORMS[int(rng.integers(0, len(NUM_FORMS)))]
+        if form == "default":
+            N = Fraction(1000)
+            if not budget_ok(K, N):
+                continue
+        if form in ("int", "np.int64") and not (isinstance(N, Fraction) and N.denominator == 1):
+            form = "float"
+        rb = call_canon(lambda: [make_basis(v, s, sg) for v, s, sg in zip(probs, scales, signs)])
+        if rb[0] != "ok":
+            r, stub = rb, ChoiceStub(None)
+        else:
+            r, stub = run_public(rb[1], N, seeded_policy(rng), form)
         perms = argsort_perms(probs)
         if r[0] == "ok":
             items = canon_dict(r[1])
@@ -680,9 +720,10 @@ def gen_public(rng, tier, w, n):
         w.add("public", "chk_public",
               (coq_probs(probs), perms, coq_num(N), list(stub.tape), tuple(cq(t) for t in tl), exp),
               dict(kind="weights", public=True, probs=[[jq(x) for x in v] for v in probs], N=jnum(N), tape=list(stub.tape),
-                   perms=perms, impl=impl, exact=True, scales=scales, signs=signs),
+                   perms=perms, impl=impl, exact=True, scales=scales, signs=signs, form=form),
               nontrivial=(len(items) > 1))
         done += 1
+        w.count("public.num_samples_form", form)
         w.count("public.outcome", outcome_class(r, stub))
         w.count("public.types", "+".join(sorted({t for _, _, t in items})) if items else "-")
 
@@ -943,8 +984,8 @@ def rerun(case):
             supp = [i for i in range(n) if p[i] > 0] or [0]
             return (tape[pos:] + [supp[0]] * kk)[:kk]
         if case.get("public"):
-            bases = [make_basis(v, s, sg) for v, s, sg in zip(probs, case["scales"], case["signs"])]
-            r, stub = run_public(bases, N, pol)
+            rb = call_canon(lambda: [make_basis(v, s, sg) for v, s, sg in zip(probs, case["scales"], case["signs"])])
+            r, stub = (rb, None) if rb[0] != "ok" else run_public(rb[1], N, pol, case.get("form", "float"))
         else:
             r, stub = run_weights(probs, N, pol)
         case["impl"] = ["ok", jdict(canon_dict(r[1]))] if r[0] == "ok" else [r[0], r[1]]
